@@ -89,9 +89,11 @@ KINDS = [
     ("boost_or3", ("boost", 2.0, ("or", ("t", "aa"), ("t", "bb"), ("t", "cc")))),
     ("boost_and", ("boost", 3.0, ("and", ("t", "aa"), ("t", "bb")))),
     ("or_boost_term", ("or", ("boostt", 2.0, ("t", "aa")), ("t", "bb"))),
+    ("otherwise", ("otherwise", ("t", "aa"), ("t", "bb"))),
+    ("otherwise_and", ("otherwise", ("and", ("t", "aa"), ("t", "cc")), ("or", ("t", "bb"), ("t", "cc")))),
 ]
 BINARY_QUALITY_KNOWN = {"and", "or2", "or3", "andmaybe", "and_or", "or_and", "and3", "dismax_and", "boost_or", "boost_or3", "boost_and",
-                        "or_boost_term",
+                        "or_boost_term", "otherwise_and",
                         "andnot_or", "and_not"}
 BOOSTED = {"boost_or", "boost_or3", "boost_and", "or_boost_term"}
 
@@ -107,6 +109,8 @@ def mkq(spec):
         return query.Or([mkq(s) for s in spec[1:]])
     if op == "orscale":
         return query.Or([mkq(s) for s in spec[2:]], scale=spec[1])
+    if op == "otherwise":
+        return query.Otherwise(mkq(spec[1]), mkq(spec[2]))
     if op == "andnot":
         return query.AndNot(mkq(spec[1]), mkq(spec[2]))
     if op == "andmaybe":
@@ -154,6 +158,10 @@ def ev(spec, corpus):
             matching = sum(1 for p in parts if i in p)
             out[i] = (score + ((matching - 1) / (tc - scale) ** 2)) * ((tc - 1) / tc)
         return out
+    if op == "otherwise":
+        # the second clause only when the first matches no (live) document of the whole index
+        a = ev(spec[1], corpus)
+        return a if a else ev(spec[2], corpus)
     if op == "andnot":
         a, b = ev(spec[1], corpus), ev(spec[2], corpus)
         return {i: s for i, s in a.items() if i not in b}
